@@ -132,9 +132,12 @@ let parse_simc (t : string list) =
 
 (* ---- responder cases ---- *)
 let parse_orec (s : string) : orec = let p = parse_prec s in { o_id = p.p_id; o_ttl = p.p_ttl }
+(* ptr+sub|~+srv+txt+addr+addr... *)
 let parse_svc (s : string) : svc =
-  match List.map parse_orec (split_on '+' s) with
-  | p :: sr :: tx :: addrs -> { sv_ptr = p; sv_srv = sr; sv_txt = tx; sv_addrs = addrs }
+  match split_on '+' s with
+  | p :: sub :: sr :: tx :: addrs ->
+    { sv_ptr = parse_orec p; sv_sub = (if sub = "~" then None else Some (parse_orec sub));
+      sv_srv = parse_orec sr; sv_txt = parse_orec tx; sv_addrs = List.map parse_orec addrs }
   | _ -> failwith "svc"
 let parse_query (x : string) =
   match split_on '=' x with
@@ -303,17 +306,11 @@ let mon_c10 (case : string list) (result : string) : string =
       let verdicts = List.map2 (fun (qs, kas) o ->
           let o = parse_obs_resp o in
           if chk_C10_resp svcs qs kas o then "" else
-          let tag =
-            if resp_explained_by true false svcs qs kas o then "[ka-flush-bit]"
-            else if resp_explained_by false true svcs qs kas o then "[srv-additionals-kept]"
-            else if resp_explained_by true true svcs qs kas o then "[ka-flush-bit+srv-additionals-kept]"
-            else "[unexplained]" in
-          tag ^ " prescribed " ^ fmt_resp (resp_spec svcs qs kas) ^ " observed " ^ fmt_resp o) queries obs in
+          "prescribed " ^ fmt_resp (resp_spec svcs qs kas) ^ " observed " ^ fmt_resp o) queries obs in
       let bad = List.filter (fun v -> v <> "") verdicts in
       if bad = [] then "PASS"
       else
-        let tags = List.sort_uniq compare (List.map (fun v -> List.hd (split_on ' ' v)) bad) in
-        let msg = "FAIL" ^ String.concat "" tags ^ " response differs from: every unsuppressed answer with its additionals, nothing else;" ^ List.hd bad in
+        let msg = "FAIL response differs from: every unsuppressed answer with its additionals, nothing of a suppressed one; " ^ List.hd bad in
         if String.length msg > 600 then String.sub msg 0 600 else msg
     end
   | _ -> "BADCASE"
